@@ -194,7 +194,7 @@ func (c15) Run(c *core.Case, env *core.Env) {
 				}
 				return uint32(x) // small ids: the directory itself is 1
 			}
-			for _, op := range by[a] {
+			for i, op := range by[a] {
 				switch op.Kind {
 				case "newservice":
 					zzsim.SetNode("server")
@@ -253,8 +253,9 @@ func (c15) Run(c *core.Case, env *core.Env) {
 					id := pickID(op.X)
 					info := c15info(op.S)
 					info.ServiceId = id
-					info.Endpoints = []string{"tcp://moved:2"}
-					h := env.Invoke(a, "update", fmt.Sprintf("%d %s", id, op.S))
+					ep := fmt.Sprintf("tcp://moved:%d", 1000+a*100+i)
+					info.Endpoints = []string{ep}
+					h := env.Invoke(a, "update", fmt.Sprintf("%d %s %s", id, op.S, ep))
 					err := proxies[a].UpdateServiceInfo(info)
 					env.Return(h, "", err)
 				case "lookup":
@@ -262,7 +263,7 @@ func (c15) Run(c *core.Case, env *core.Env) {
 					info, err := proxies[a].Service(op.S)
 					out := ""
 					if err == nil {
-						out = fmt.Sprintf("%d:%s", info.ServiceId, info.Name)
+						out = fmt.Sprintf("%d:%s@%s", info.ServiceId, info.Name, strings.Join(info.Endpoints, "+"))
 					}
 					env.Return(h, out, err)
 				case "list":
@@ -270,7 +271,7 @@ func (c15) Run(c *core.Case, env *core.Env) {
 					l, err := proxies[a].Services()
 					var parts []string
 					for _, i := range l {
-						parts = append(parts, fmt.Sprintf("%d:%s", i.ServiceId, i.Name))
+						parts = append(parts, fmt.Sprintf("%d:%s@%s", i.ServiceId, i.Name, strings.Join(i.Endpoints, "+")))
 					}
 					sort.Strings(parts)
 					env.Return(h, strings.Join(parts, ","), err)
@@ -287,10 +288,16 @@ type c15reg struct {
 	staging map[uint32]string
 	ready   map[uint32]string
 	maxID   uint32
+	// ep is the endpoint an entry's info carries: what register gave, then
+	// what the last accepted update gave ("*": set by the hosting server)
+	ep map[uint32]string
 }
 
 func (s c15reg) clone() c15reg {
-	n := c15reg{map[uint32]string{}, map[uint32]string{}, s.maxID}
+	n := c15reg{map[uint32]string{}, map[uint32]string{}, s.maxID, map[uint32]string{}}
+	for k, v := range s.ep {
+		n.ep[k] = v
+	}
 	for k, v := range s.staging {
 		n.staging[k] = v
 	}
@@ -303,10 +310,10 @@ func (s c15reg) clone() c15reg {
 func (s c15reg) key() string {
 	var parts []string
 	for k, v := range s.staging {
-		parts = append(parts, fmt.Sprintf("s%d:%s", k, v))
+		parts = append(parts, fmt.Sprintf("s%d:%s@%s", k, v, s.ep[k]))
 	}
 	for k, v := range s.ready {
-		parts = append(parts, fmt.Sprintf("r%d:%s", k, v))
+		parts = append(parts, fmt.Sprintf("r%d:%s@%s", k, v, s.ep[k]))
 	}
 	sort.Strings(parts)
 	return fmt.Sprintf("%d|%s", s.maxID, strings.Join(parts, ","))
@@ -326,19 +333,38 @@ func (s c15reg) held(name string) bool {
 	return false
 }
 
-func (s c15reg) listing() string {
+// matches tells whether an observed listing ("id:name@endpoint,...", sorted)
+// is the set of ready services with the endpoints their infos must carry.
+func (s c15reg) matches(observed string) bool {
 	var parts []string
-	for k, v := range s.ready {
-		parts = append(parts, fmt.Sprintf("%d:%s", k, v))
+	if observed != "" {
+		parts = strings.Split(observed, ",")
 	}
-	sort.Strings(parts)
-	return strings.Join(parts, ",")
+	if len(parts) != len(s.ready) {
+		return false
+	}
+	for _, p := range parts {
+		idname, ep, _ := strings.Cut(p, "@")
+		var id uint32
+		var name string
+		if n, _ := fmt.Sscanf(strings.Replace(idname, ":", " ", 1), "%d %s", &id, &name); n != 2 {
+			return false
+		}
+		if want, ok := s.ready[id]; !ok || want != name {
+			return false
+		}
+		if e := s.ep[id]; e != "*" && e != ep {
+			return false
+		}
+	}
+	return true
 }
 
 type c15in struct {
 	op   string
 	name string
 	id   uint32
+	ep   string
 }
 
 type c15out struct {
@@ -365,6 +391,7 @@ func c15step(s c15reg, in c15in, out c15out) (bool, c15reg) {
 		n := s.clone()
 		n.maxID = id
 		n.staging[id] = in.name
+		n.ep[id] = in.ep
 		return true, n
 	case "register-invalid":
 		return !out.ok, s
@@ -400,21 +427,39 @@ func c15step(s c15reg, in c15in, out c15out) (bool, c15reg) {
 		return true, n
 	case "update":
 		if name, ok := s.ready[in.id]; ok {
-			return out.ok == (name == in.name), s
+			if out.ok != (name == in.name) {
+				return false, s
+			}
+			if !out.ok {
+				return true, s
+			}
+			n := s.clone()
+			n.ep[in.id] = in.ep
+			return true, n
 		}
 		if _, ok := s.staging[in.id]; ok {
-			return true, s // either outcome
+			// either outcome; an accepted one carries its endpoint along
+			if !out.ok {
+				return true, s
+			}
+			n := s.clone()
+			n.ep[in.id] = in.ep
+			return true, n
 		}
 		return !out.ok, s
 	case "lookup":
 		for id, name := range s.ready {
 			if name == in.name {
-				return out.ok && out.out == fmt.Sprintf("%d:%s", id, name), s
+				if !out.ok {
+					return false, s
+				}
+				idname, ep, _ := strings.Cut(out.out, "@")
+				return idname == fmt.Sprintf("%d:%s", id, name) && (s.ep[id] == "*" || s.ep[id] == ep), s
 			}
 		}
 		return !out.ok, s
 	case "list":
-		return out.ok && out.out == s.listing(), s
+		return out.ok && s.matches(out.out), s
 	}
 	return false, s
 }
@@ -462,28 +507,30 @@ func (c15) PostCheck(c *core.Case, env *core.Env, v *core.Verdict) {
 				if n, _ := fmt.Sscanf(h.Err, "Service id not found: %d", &id); n == 1 {
 					// the name was reserved (id) but the entry had been
 					// removed by somebody else before it was made ready
-					ops = append(ops, porcupine.Operation{ClientId: h.Client, Input: c15in{"register", h.Arg, 0}, Call: h.Call, Output: c15out{true, fmt.Sprint(id)}, Return: h.Ret})
-					ops = append(ops, porcupine.Operation{ClientId: h.Client + 100, Input: c15in{"ready", "", id}, Call: h.Call, Output: c15out{false, ""}, Return: h.Ret})
+					ops = append(ops, porcupine.Operation{ClientId: h.Client, Input: c15in{"register", h.Arg, 0, "*"}, Call: h.Call, Output: c15out{true, fmt.Sprint(id)}, Return: h.Ret})
+					ops = append(ops, porcupine.Operation{ClientId: h.Client + 100, Input: c15in{"ready", "", id, ""}, Call: h.Call, Output: c15out{false, ""}, Return: h.Ret})
 					continue
 				}
-				ops = append(ops, porcupine.Operation{ClientId: h.Client, Input: c15in{"register", h.Arg, 0}, Call: h.Call, Output: c15out{false, ""}, Return: h.Ret})
+				ops = append(ops, porcupine.Operation{ClientId: h.Client, Input: c15in{"register", h.Arg, 0, "*"}, Call: h.Call, Output: c15out{false, ""}, Return: h.Ret})
 				continue
 			}
 			var id uint32
 			fmt.Sscan(h.Out, &id)
-			ops = append(ops, porcupine.Operation{ClientId: h.Client, Input: c15in{"register", h.Arg, 0}, Call: h.Call, Output: c15out{true, h.Out}, Return: h.Ret})
-			ops = append(ops, porcupine.Operation{ClientId: h.Client + 100, Input: c15in{"ready", "", id}, Call: h.Call, Output: c15out{true, ""}, Return: h.Ret})
+			ops = append(ops, porcupine.Operation{ClientId: h.Client, Input: c15in{"register", h.Arg, 0, "*"}, Call: h.Call, Output: c15out{true, h.Out}, Return: h.Ret})
+			ops = append(ops, porcupine.Operation{ClientId: h.Client + 100, Input: c15in{"ready", "", id, ""}, Call: h.Call, Output: c15out{true, ""}, Return: h.Ret})
 			continue
 		case "ready", "unregister", "terminate":
 			fmt.Sscan(h.Arg, &in.id)
 		case "update":
-			fmt.Sscanf(h.Arg, "%d %s", &in.id, &in.name)
+			fmt.Sscanf(h.Arg, "%d %s %s", &in.id, &in.name, &in.ep)
+		case "register":
+			in.ep = "tcp://other:1"
 		}
 		ops = append(ops, porcupine.Operation{ClientId: h.Client, Input: in, Call: h.Call, Output: c15out{h.OK, h.Out}, Return: h.Ret})
 	}
 	model := porcupine.Model{
 		Init: func() interface{} {
-			return c15reg{map[uint32]string{}, map[uint32]string{1: "ServiceDirectory"}, 1}
+			return c15reg{map[uint32]string{}, map[uint32]string{1: "ServiceDirectory"}, 1, map[uint32]string{1: "*"}}
 		},
 		Step: func(state, input, output interface{}) (bool, interface{}) {
 			ok, n := c15step(state.(c15reg), input.(c15in), output.(c15out))
